@@ -125,6 +125,9 @@ func (evpool *Pool) Update(state cstate.LatestBlockState, ev types.EvidenceList)
 
 	evpool.markEvidenceAsCommitted(ev)
 
+	// evidence reported while this height was being decided can be stated correctly only now
+	evpool.restampEvidenceOfHeight(state.LastBlockHeight)
+
 	// prune pending evidence when it has expired. This also updates when the next evidence will expire
 	if evpool.Size() > 0 && state.LastBlockHeight > evpool.pruningHeight &&
 		state.LastBlockTime.After(evpool.pruningTime) {
@@ -356,6 +359,11 @@ func (evpool *Pool) AddEvidence(ev types.Evidence) error {
 // AddEvidenceFromConsensus should be exposed only to the consensus so it can add evidence to the pool
 // directly without the need for verification.
 func (evpool *Pool) AddEvidenceFromConsensus(ev types.Evidence) error {
+	// consensus stamps the evidence with what it has at hand (the median of its own last commit, the current
+	// validator set); every other node verifies against the block and the validator set of the evidence height
+	if dve, ok := ev.(*types.DuplicateVoteEvidence); ok {
+		ev, _ = evpool.withChainFacts(dve)
+	}
 	// we already have this evidence, log this but don't return an error.
 	if evpool.isPending(ev) {
 		evpool.logger.Info("Evidence already pending, ignoring this one", "ev", ev)
@@ -417,6 +425,55 @@ func (evpool *Pool) CheckEvidence(evList types.EvidenceList) error {
 		}
 	}
 	return nil
+}
+
+// withChainFacts rebuilds duplicate-vote evidence with the time of the block and the validator set of the
+// evidence height; false while that block does not exist yet.
+func (evpool *Pool) withChainFacts(dve *types.DuplicateVoteEvidence) (types.Evidence, bool) {
+	blockMeta := evpool.blockStore.LoadBlockMeta(dve.Height())
+	if blockMeta == nil {
+		return dve, false
+	}
+	valSet, err := evpool.stateDB.LoadValidators(dve.Height())
+	if err != nil {
+		return dve, false
+	}
+	fixed := types.NewDuplicateVoteEvidence(dve.VoteA, dve.VoteB, blockMeta.Header.Time, valSet)
+	if fixed == nil {
+		return dve, false
+	}
+	return fixed, true
+}
+
+// restampEvidenceOfHeight replaces pending evidence of the given height that does not state the facts of that
+// height (it was reported by consensus before the block existed).
+func (evpool *Pool) restampEvidenceOfHeight(height uint64) {
+	prefix := append([]byte(baseKeyPending), []byte(bE(height))...)
+	evList, _, err := evpool.listEvidence(prefix, -1)
+	if err != nil {
+		evpool.logger.Error("Unable to retrieve pending evidence", "err", err)
+		return
+	}
+	for _, ev := range evList {
+		dve, ok := ev.(*types.DuplicateVoteEvidence)
+		if !ok {
+			continue
+		}
+		fixed, ok := evpool.withChainFacts(dve)
+		if !ok || fixed.Hash().Equal(dve.Hash()) {
+			continue
+		}
+		evpool.removePendingEvidence(dve)
+		evpool.removeEvidenceFromList(map[string]struct{}{evMapKey(dve): {}})
+		if evpool.isPending(fixed) || evpool.isCommitted(fixed) {
+			continue
+		}
+		if err := evpool.addPendingEvidence(fixed); err != nil {
+			evpool.logger.Error("Can't add evidence to pending list", "err", err, "ev", fixed)
+			continue
+		}
+		evpool.evidenceList.PushBack(fixed)
+	}
 }
 
 func (evpool *Pool) addPendingEvidence(ev types.Evidence) error {
